@@ -1,5 +1,9 @@
 //verif:dest internal/server/handlers/zz_verif_c13d.go
 //verif:replace@C13d path/filepath.Glob = c13dGlob
+//verif:replace@C13g path/filepath.Glob = c13dGlob
+//verif:replace@C13g (*github.com/mimecast/dtail/internal/user/server.User).HasFilePermission = c13dPerm
+//verif:replace@C13g (*regexp.Regexp).Match = c13gMatch
+//verif:replace@C13g regexp.Compile = c13gCompile
 //verif:replace@C13d (*github.com/mimecast/dtail/internal/user/server.User).HasFilePermission = c13dPerm
 
 package handlers
